@@ -34,7 +34,9 @@ SINK_PATTERNS = [
 
 # Sinks that are not behind one of the two capability gates, confirmed by reading (one reason each).
 UNGATED_OK = {
-    ("sigma.processing.resolver.ProcessingPipelineResolver.resolve_pipeline", "open"):
+    # keyed by class: the call may live in a helper of resolve_pipeline; that the opened path is the caller's specifier is
+    # decided by interpreting resolve_pipeline (resolver_outcome, C16.R4)
+    ("sigma.processing.resolver.ProcessingPipelineResolver", "open"):
         "opens the pipeline file the *caller* named (spec argument of resolve_pipeline), not a path taken from a pipeline document",
     ("sigma.processing.templates.TemplateBase.__post_init__", "FileSystemLoader"):
         "Jinja template *read* from the 'path' key with a sandboxed environment: not one of the four capabilities of the property (command, placeholder source file, network, Python vars file); recorded as observation",
@@ -153,7 +155,11 @@ def r1_sinks(ctx) -> None:
                 gated_funcs_with_sinks.setdefault(q, []).append(f"{name} ({kind})")
                 r.ok("C16.R1", q, f"sink {name} [{kind}] inside gated function {fi.name}", loc)
                 continue
-            ok_reason = UNGATED_OK.get((q, short_name))
+            ok_reason = UNGATED_OK.get((q, short_name)) or (UNGATED_OK.get((fi.cls.qual, short_name)) if fi.cls is not None else None)
+            if ok_reason and fi.cls is not None and (fi.cls.qual, short_name) in UNGATED_OK and (q, short_name) not in UNGATED_OK and fi.cls.qual.endswith("ProcessingPipelineResolver"):
+                ro = resolver_outcome(ctx)
+                if ro.raised is not None or ro.opened != ["the/spec.yml"]:
+                    ok_reason = None  # the resolver opens something else than the caller's specifier
             if ok_reason:
                 r.ok("C16.R1", q, f"sink {name} [{kind}] allowed ungated: {ok_reason}", loc)
                 continue
@@ -390,6 +396,51 @@ def from_yaml_outcomes(ctx) -> list[str]:
             bad.append(f"{case}: from_dict receives allow_template_vars={kw.get('allow_template_vars', '<missing>')!r}, allow_external_sources={kw.get('allow_external_sources', '<missing>')!r}")
     ctx._c16_from_yaml = bad
     return bad
+
+
+def resolver_outcome(ctx):
+    """ProcessingPipelineResolver.resolve_pipeline interpreted (sa.tabulate, Proxy) for a specifier that is not registered: which
+    path is opened and what ProcessingPipeline.from_yaml receives (positional arguments mapped to its parameter names)."""
+    import types as _types
+    from ..tabulate import Proxy, call_method, Raised
+    if getattr(ctx, "_c16_resolver", None) is not None:
+        return ctx._c16_resolver
+    prog = ctx.prog
+    RQ = "sigma.processing.resolver.ProcessingPipelineResolver"
+    fy_params = [p_ for p_ in prog.func("sigma.processing.pipeline.ProcessingPipeline.from_yaml").params() if p_ not in ("self", "cls")]
+    opened: list = []
+    calls: list = []
+
+    class _File:
+        def __init__(self, path): self.path = path
+        def __enter__(self): return self
+        def __exit__(self, *a): return False
+        def read(self): return f"TEXT({self.path})"
+        def close(self): pass
+
+    def open_(path, *a, **k):
+        opened.append(str(path))
+        return _File(str(path))
+
+    class ProcessingPipeline:
+        @staticmethod
+        def from_yaml(*a, **k):
+            d = dict(zip(fy_params, a)); d.update(k)
+            calls.append(d)
+            return "PIPELINE"
+    class SigmaPipelineNotFoundError(Exception):
+        def __init__(self, *a, **k): super().__init__(*a)
+    env = {"open": open_, "ProcessingPipeline": ProcessingPipeline, "SigmaPipelineNotFoundError": SigmaPipelineNotFoundError,
+           "Path": lambda p_: _types.SimpleNamespace(open=lambda *a, **k: open_(p_), read_text=lambda *a, **k: open_(p_).read(), is_dir=lambda: False)}
+    IK = {"max_steps": 6000, "behaviours": (KeyError, OSError, SigmaPipelineNotFoundError)}
+    out = _types.SimpleNamespace(opened=opened, from_yaml=calls, ret=None, raised=None)
+    me = Proxy(prog, RQ, env, {"pipelines": {}}, interp_kwargs=IK)
+    try:
+        out.ret = call_method(prog, RQ, "resolve_pipeline", me, env, "the/spec.yml", None, interp_kwargs=IK)
+    except Raised as ex:
+        out.raised = ex
+    ctx._c16_resolver = out
+    return out
 
 
 def r2_capabilities(ctx) -> None:
@@ -1287,13 +1338,12 @@ def r4_paths(ctx) -> None:
                     "from_yaml no longer derives the allowed base directory from the pipeline file's location before building the pipeline", fy.loc)
     # 5. the resolver passes source_path
     rp = prog.func("sigma.processing.resolver.ProcessingPipelineResolver.resolve_pipeline")
-    okp = False
-    for c in (x for x in walk_no_nested(rp.node) if isinstance(x, ast.Call) and call_name(x).endswith("from_yaml")):
-        for kw in c.keywords:
-            if kw.arg == "source_path" and isinstance(kw.value, ast.Name) and kw.value.id == "spec":
-                okp = True
+    ro = resolver_outcome(ctx)
+    okp = ro.raised is None and ro.opened == ["the/spec.yml"] and len(ro.from_yaml) == 1 and ro.from_yaml[0].get("source_path") == "the/spec.yml" \
+        and ro.from_yaml[0].get("processing_pipeline") == "TEXT(the/spec.yml)" and not any(ro.from_yaml[0].get(k_) for k_ in CAP_FIELDS if k_ != "vars_allowed_paths") \
+        and ro.from_yaml[0].get("vars_allowed_paths") is None
     if okp:
-        r.ok("C16.R4", rp.qual, "from_yaml(..., source_path=spec)", rp.loc)
+        r.ok("C16.R4", rp.qual, "an unregistered specifier: the file the caller named is opened and handed to from_yaml with source_path = that specifier and no capability (interpreted)", rp.loc)
     else:
         r.violation("C16.R4", rp.qual, "ProcessingPipeline.from_yaml(f.read(), source_path=spec)", "the resolver does not hand the pipeline file's location to from_yaml; no allowed base is derived", rp.loc)
     r.floor("C16.R4", 4)
